@@ -508,3 +508,49 @@ func clip(s string, n int) string {
 	}
 	return s
 }
+
+// RunUnitJSON runs one unit in this process and prints its Result as one JSON line (used to run a unit
+// inside another build flavour of the same binary).
+func RunUnitJSON(c *Check, ctx *Ctx, name string) int {
+	for _, u := range c.Units(ctx) {
+		if u.Name == name {
+			r := runUnit(c, ctx, u)
+			b, _ := json.Marshal(r)
+			fmt.Println(string(b))
+			return 0
+		}
+	}
+	fmt.Fprintln(os.Stderr, "no such unit:", name)
+	return 3
+}
+
+// RunInFlavour executes unit `name` of check c in another binary and folds its result into r.
+func RunInFlavour(c *Check, ctx *Ctx, bin, name string, r *Result) {
+	cmd := exec.Command(bin, "-prop", c.ID, "-tier", ctx.Tier, "-seed", fmt.Sprint(ctx.Seed), "-rununit", name)
+	cmd.Stderr = os.Stderr
+	out, err := cmd.Output()
+	if err != nil {
+		r.ToolError = fmt.Sprintf("flavour binary %s failed on unit %s: %v", bin, name, err)
+		return
+	}
+	var sub Result
+	if err := json.Unmarshal(out, &sub); err != nil {
+		r.ToolError = fmt.Sprintf("flavour binary %s: unreadable result for unit %s: %v", bin, name, err)
+		return
+	}
+	if sub.ToolError != "" {
+		r.ToolError = sub.ToolError
+		return
+	}
+	r.Evals += sub.Evals
+	r.Nontrivial += sub.Nontrivial
+	r.NViol += sub.NViol
+	r.Violations = append(r.Violations, sub.Violations...)
+	r.Samples = append(r.Samples, sub.Samples...)
+	for k, v := range sub.Notes {
+		r.Note(k, v)
+	}
+	if !sub.Exhaustive {
+		r.Exhaustive = false
+	}
+}
